@@ -300,7 +300,7 @@ class Engine(object):
             s.add(a)
         t = time.time()
         from . import solve as _solve
-        r = _solve.guarded_check(s, int(timeout_ms or self.feas_timeout_ms))
+        r = _solve.guarded_check(s, int(timeout_ms or self.feas_timeout_ms), want_model=False)
         self.stats["feas_queries"] += 1
         self.stats["feas_s"] += time.time() - t
         if r == z3.sat:
